@@ -163,6 +163,7 @@ def analyse(steps, trailing_notes=()):
     window_exceeded = set()
     out_pids = {}  # ep -> next data packet id (tracked from send returns)
     hostile = False
+    agreed = False
     window_exceeded_flag = False
     closed_state = {}
     twin_a = None
@@ -207,6 +208,8 @@ def analyse(steps, trailing_notes=()):
                 settled = True
             elif t[0] == "hostile":
                 hostile = True
+            elif t[0] == "agreed":
+                agreed = True
             elif t[0] == "window-exceeded":
                 window_exceeded_flag = True
         op = st.op
@@ -444,6 +447,20 @@ def analyse(steps, trailing_notes=()):
                     V.append(Violation("C11", "codec", "unrepresentable close reason was serialised: %s" % res[0], st))
             elif not res[0].startswith("codec ok"):
                 V.append(Violation("C11", "codec", "in-range bunch does not round-trip at bit offset %d: %s" % (off % 64, res[0]), st))
+        if op == "bbbits":
+            stats["unit"] = stats.get("unit", 0) + 1
+            res = [e for e in st.events if e.startswith("bb")]
+            nbits = int(a[0]) % 2049
+            pseed = int(a[2])
+            data = bytearray(payload_bytes(pseed, 300))
+            bits_ = bits_of(data, nbits)
+            want_h = "%016x" % fnv64(pack_bits(bits_))
+            if not res or not res[0].startswith("bb ok"):
+                V.append(Violation("C12", "bb", "a run of %d bits at bit offset %d could not be written and read back: %s" % (nbits, int(a[1]) % 64, res[:1]), st))
+            else:
+                t = res[0].split()
+                if t[3] != want_h or t[4] != "1" or int(t[5]) != nbits + 1:
+                    V.append(Violation("C12", "bb", "a run of %d bits written at bit offset %d reads back differently (or the following bit / the cursor is wrong): %s" % (nbits, int(a[1]) % 64, res[0]), st))
         if op in ("bbint", "bbwrapped", "bbpacked"):
             stats["unit"] = stats.get("unit", 0) + 1
             res = [e for e in st.events if e.startswith("bb")]
@@ -690,6 +707,24 @@ def analyse(steps, trailing_notes=()):
                 if rel and dst is not None and len(recvd.get((dst, ch, True), [])) < len(want):
                     V.append(Violation("C05", "disagree", "after the handshake reliable data from endpoint %d is not delivered: the ends disagree on the initial sequence numbers" % src, want[0]["step"]))
                     break
+    # ---------------- C05: endpoints initialised with mirrored sequence numbers (what a completed handshake leaves) agree
+    if agreed and drained and not hostile:
+        for ep in (1, 2):
+            peer = peers.get(ep)
+            outs_ = [r for r in sent_all.get(ep, []) if r["pid"] is not None]
+            if peer is None or not outs_:
+                continue
+            first_pid = min(r["pid"] for r in outs_)
+            if first_pid not in accepted.get(peer, {}):
+                V.append(Violation("C05", "disagree", "the first data packet of endpoint %d (id %d) was not accepted by its peer: the ends disagree on the initial sequence numbers" % (ep, first_pid)))
+            naks = [pid for pid, ack, st_ in status.get(ep, []) if not ack]
+            if naks:
+                V.append(Violation("C05", "disagree", "fault-free link after sequence initialisation, yet endpoint %d saw NAKs for packets %s" % (ep, naks[:5])))
+        for (src, ch, rel), want in sent.items():
+            dst = peers.get(src)
+            if rel and dst is not None and len(recvd.get((dst, ch, True), [])) < len(want):
+                V.append(Violation("C05", "disagree", "after sequence initialisation reliable data from endpoint %d is not delivered" % src, want[0]["step"]))
+                break
     # forged / reflected datagrams are outside the fault model of C01-C04 (the protocol is not authenticated): in
     # sessions that inject them only the robustness monitors apply
     if hostile:
